@@ -21,6 +21,7 @@ TECHNIQUE = (
     "bounded-exhaustive exploration of the real tokenize(): all candidate-token layouts through a "
     "narrow seam + all fragment documents up to depth k, three tokenizers"
 )
+TECHNIQUE += "; " + 'also: transform-sensitive fragments, CRLF documents beyond 64 KiB / 128 KiB; the narrow seam again under python -O'
 RULE = (
     "seam: all lists of <=n candidate tokens over all spans of a fixed short text; docs: all "
     "concatenations of <=k fragments of alphabet A12. Non-trivial = a layout with >=2 candidates of "
